@@ -4,6 +4,7 @@ import (
 	"fmt"
 	"net/http"
 	"strconv"
+	"strings"
 
 	"github.com/zitadel/logging"
 
@@ -359,7 +360,7 @@ func checkCertificate(
 		for _, keyDesc := range metadata.SPSSODescriptor.KeyDescriptor {
 			for _, spX509Data := range keyDesc.KeyInfo.X509Data {
 				for _, reqX509Data := range request.KeyInfo.X509Data {
-					if spX509Data.X509Certificate == reqX509Data.X509Certificate {
+					if normalizeCertificateText(spX509Data.X509Certificate) == normalizeCertificateText(reqX509Data.X509Certificate) {
 						return nil
 					}
 				}
@@ -368,6 +369,12 @@ func checkCertificate(
 
 		return fmt.Errorf("unknown certificate used to sign request")
 	}
+}
+
+// normalizeCertificateText removes the white space base64 text may legally be wrapped with,
+// so that the same certificate is recognized independent of its line layout.
+func normalizeCertificateText(cert string) string {
+	return strings.Join(strings.Fields(cert), "")
 }
 
 func GetAcsUrlAndBindingForResponse(
